@@ -55,6 +55,13 @@ def gen_ctx(rng):
     return ctx
 
 
+def at_least2(ctx, name):
+    """A reduced / bound variable of size 1 makes every reduction the identity: keep those shapes non-degenerate."""
+    if ctx[name] < 2:
+        ctx[name] = 2
+    return name
+
+
 def gen_sum_product(rng):
     """A sum-product style expression: ⨁_{elim} ⨂ factors, written with binary ops and one reduce
     (recipe of gen_terms, so that `build` goes through the public API under the active interpretation)."""
@@ -231,7 +238,7 @@ def gen_cnf_grid(rng, k, rot):
         wrap, u, r, b = CNF_WRAPPED[(k + rot) % len(CNF_WRAPPED)]
     ctx = gen_ctx(rng)
     names = list(ctx)
-    i = rng.choice(names)
+    i = at_least2(ctx, rng.choice(names))
     na = sorted(set([i] + [n for n in names if rng.random() < 0.5]))
     nb = sorted(set([i] + [n for n in names if rng.random() < 0.5]))
     inexact = bool({u, r, b} & INEXACT) or wrap == "div-by"
@@ -412,7 +419,7 @@ def gen_user_term(rng, k, rot):
         ctx[NAMES[len(ctx)]] = rng.choice([2, 3])
     names = list(ctx)
     rng.shuffle(names)
-    i, j = names[0], names[1]
+    i, j = at_least2(ctx, names[0]), at_least2(ctx, names[1])
     others = names[2:]
     bound = [i, j] if kind == "sum2-mul" else [i]
     xn = sorted(set(bound + [n for n in others if rng.random() < 0.6]))
@@ -684,7 +691,7 @@ def gen_shared_reduction(rng, k, rot):
     while len(ctx) < 2:
         ctx[NAMES[len(ctx)]] = rng.choice([2, 3])
     names = list(ctx)
-    i = rng.choice(names)
+    i = at_least2(ctx, rng.choice(names))
     nonneg = bop == "mul" and red in ("max", "min")
     inexact = red == "logaddexp"
 
